@@ -79,6 +79,7 @@ def run_harness(scratch, h, timeout):
     cmd = ["cargo", "kani", "-Z", "function-contracts", "-Z", "stubbing", "-Z", "concrete-playback",
            "--concrete-playback=print", "--harness", h["harness"]]
     env = dict(os.environ, CARGO_NET_OFFLINE="true")
+    env.pop("CARGO_TARGET_DIR", None)
     t0 = time.time()
     try:
         p = subprocess.run(cmd, cwd=scratch, env=env, capture_output=True, text=True, timeout=timeout)
@@ -116,6 +117,9 @@ def run_sets(pid, sets, tier, workdir, timeout=1500):
         res["undecided"].append("kani: source file %s to append the harness module to is missing" % e)
         return res
     try:
+        only = os.environ.get("VERIF_KANI_ONLY")
+        if only:
+            harnesses = [h for h in harnesses if only in h["harness"]]
         res["cmd"] = "cargo kani -Z function-contracts -Z stubbing --harness <each> (scratch copy of /repo + kani/{%s})" % ",".join(sets)
         # first harness builds the crate; the rest reuse the build
         from concurrent.futures import ThreadPoolExecutor
